@@ -2,7 +2,7 @@
    and what the invariants of ProofsA/B/C give for it and for complete histories. *)
 From OlaBase Require Import Bytes.
 From Coq Require Import Sorted.
-From C12 Require Import Gen Model ProofsT ProofsA ProofsB ProofsC.
+From C12 Require Import Gen Model ProofsT ProofsB ProofsC.
 Local Open Scope N_scope.
 
 Inductive reachable (max : N) (discov : bool) (ms : list mitem) (ds : list bool)
@@ -13,14 +13,6 @@ Inductive reachable (max : N) (discov : bool) (ms : list mitem) (ds : list bool)
 | R_step s f ag s' ag' : reachable max discov ms ds s (f :: ag) -> step s f ag = (s', ag') ->
                          reachable max discov ms ds s' ag'.
 
-Lemma reach_A max discov ms ds s ag : reachable max discov ms ds s ag -> InvA s ag.
-Proof.
-  induction 1.
-  - unfold InvA, init; cbn. repeat split; auto; try lia. intros; lia.
-  - unfold InvA in *; cbn. destruct IHreachable as (A & B & C & D & E & F).
-    repeat split; auto; try lia; intros; try lia.
-  - eapply step_A; eauto.
-Qed.
 Lemma reach_B max discov ms ds s ag : reachable max discov ms ds s ag -> InvB s.
 Proof.
   induction 1.
@@ -85,10 +77,20 @@ Definition final_ok (f : st) : Prop :=
   Forall (fun c => c_kind c = K_ANSWERED \/ c_reply c = mkReply RDM_FAILED_TO_SEND None 0) (g_done f) /\
   s_queue f = [].
 
+Lemma destroy_done s :
+  g_done (destroy s) = g_done s ++
+    map (fun e : N * list op => mkComp (fst e) K_DESTROYED (mkReply RDM_FAILED_TO_SEND None 0) []) (s_queue s).
+Proof. reflexivity. Qed.
+Lemma destroy_next s : h_next (destroy s) = h_next s.
+Proof. reflexivity. Qed.
+Lemma destroy_queue s : s_queue (destroy s) = [].
+Proof. reflexivity. Qed.
+
 Lemma destroy_C s : InvC s -> final_ok (destroy s).
 Proof.
-  intros [Hcnt Hacc Hso Hb Hk]. unfold final_ok, destroy; cbn.
-  repeat split.
+  intros [Hcnt Hacc Hso Hb Hk]. unfold final_ok.
+  rewrite destroy_done, destroy_next, destroy_queue.
+  split; [|split; [|split; [|reflexivity]]].
   - intros i. rewrite count_id_app, count_id_destroyed. apply Hcnt.
   - rewrite accepted_ids_app, accepted_destroyed, <- Hacc. exact Hso.
   - apply Forall_app; split.
@@ -116,13 +118,6 @@ Proof.
     inversion Hso; subst. constructor; auto. apply Forall_app in H2. tauto.
 Qed.
 
-Lemma reach_outstanding max discov ms ds s ag :
-  reachable max discov ms ds s ag ->
-  len (m_out s) + len (m_dout s) <= 1 /\ g_conc s <= 1 /\ g_fatal s = false /\
-  (s_pending s = true <-> m_out s <> []).
-Proof.
-  intros Hr. destruct (reach_A _ _ _ _ _ _ Hr) as (Hout & Hdout & _ & _ & Hc & Hf).
-  destruct Hout as [(Ho1 & Ho2)|(i0 & cb0 & rest0 & Ho1 & Ho2 & Ho3 & Ho4)];
-  destruct Hdout as [Hd1|(r0 & Hd1 & Hd2 & Hd3)]; try congruence;
-  rewrite ?Ho1, ?Hd1, ?Ho3; cbn; repeat split; auto; try lia; try congruence; intros; congruence.
-Qed.
+Lemma reach_paused max discov ms ds s ag :
+  reachable max discov ms ds s ag -> h_paused s = negb (s_active s) /\ g_psends s = 0.
+Proof. intros Hr. exact (reach_B _ _ _ _ _ _ Hr). Qed.
